@@ -201,7 +201,9 @@ func idemMain(s *simrt.Sim, info *harness.RunInfo) {
 
 	nexec := 0
 	var execs []*idemExec
-	app := fiber.New(fiber.Config{DisableHeaderNormalizing: disableNorm})
+	// EnableSplittingOnParsers concerns the binders of the application; the stored response is none of their business
+	splitting := s.Chance(250)
+	app := fiber.New(fiber.Config{DisableHeaderNormalizing: disableNorm, EnableSplittingOnParsers: splitting})
 	if disableNorm && hdlSpell != 0 {
 		s.Count("probe_non_canonical_response_header_names")
 	}
@@ -287,6 +289,10 @@ func idemMain(s *simrt.Sim, info *harness.RunInfo) {
 			}
 			if s.Chance(500) {
 				op.single = "s" + strconv.Itoa(op.id)
+				if s.Chance(300) {
+					// a value with commas (a date, a list): it is one value and must come back as one
+					op.single = "s" + strconv.Itoa(op.id) + ", Thu, 01 Jan 2026 00:00:00 GMT; a=b,c"
+				}
 			}
 			op.durMs = simrt.PickS(s, 0, 0, 300, 1500)
 			think := simrt.PickS(s, 0, 0, 400*time.Millisecond, lifetime+2*time.Second)
